@@ -501,7 +501,7 @@ def run(ctx):
             run_programs(ctx, [rep["program_line"]] if "program_line" in rep else [], [rep["for_spec"]] if "for_spec" in rep else [])
         return
     orders = set_orders(ctx)
-    n = ctx.n(3000, 120000)
+    n = ctx.n(2500, 120000)
     lines = vlib.corpus_lines("C23") + D19_WITNESSES
     lines += [gen_line(ctx.rng, orders) for _ in range(n)] + [gen_rcontains(ctx.rng) for _ in range(n // 10)]
     for ln in lines:
@@ -512,9 +512,9 @@ def run(ctx):
     datelib.correspond(ctx, lines, oracle=oracle, minimise=minimise, label="iter domain")
     # Elk source: the same operations through parser, checker, compiler and VM dispatch
     plines = [l for l in (gen_line(ctx.rng, orders) for _ in range(ctx.n(1500, 12000))) if l.split("\t")[2].startswith(("list:", "tuple:"))]
-    plines = plines[:ctx.n(250, 3000)]
+    plines = plines[:ctx.n(200, 3000)]
     specs = []
-    for _ in range(ctx.n(120, 1500)):
+    for _ in range(ctx.n(100, 1500)):
         s = gen_source(ctx.rng, orders)
         if not s.startswith(("it.", "listit", "tupleit", "setit")):
             specs.append(s)
